@@ -325,23 +325,65 @@ macro_rules! impl_mode_ops {
             }
         }
     };
-    (@call enc, $s:ident, block, $($a:expr),*) => { BlockModeEncrypt::encrypt_block($s, $($a),*) };
-    (@call dec, $s:ident, block, $($a:expr),*) => { BlockModeDecrypt::decrypt_block($s, $($a),*) };
-    (@call enc, $s:ident, block_b2b, $($a:expr),*) => { BlockModeEncrypt::encrypt_block_b2b($s, $($a),*) };
-    (@call dec, $s:ident, block_b2b, $($a:expr),*) => { BlockModeDecrypt::decrypt_block_b2b($s, $($a),*) };
-    (@call enc, $s:ident, blocks, $($a:expr),*) => { BlockModeEncrypt::encrypt_blocks($s, $($a),*) };
-    (@call dec, $s:ident, blocks, $($a:expr),*) => { BlockModeDecrypt::decrypt_blocks($s, $($a),*) };
-    (@callr enc, $s:ident, blocks_b2b, $($a:expr),*) => { BlockModeEncrypt::encrypt_blocks_b2b($s, $($a),*) };
-    (@callr dec, $s:ident, blocks_b2b, $($a:expr),*) => { BlockModeDecrypt::decrypt_blocks_b2b($s, $($a),*) };
+    // every call has a second public route to the same backend — the `*_inout` entry points (ops `blockio`, `blockiob`,
+    // `blocksio`, `blocksiob`, `oneshotio`, `oneshotiob`), chosen by the flag `via_inout()`; a mode type may override any of them
+    (@call enc, $s:ident, block, $b:expr) => { if via_inout() { BlockModeEncrypt::encrypt_block_inout($s, $b.into()) } else { BlockModeEncrypt::encrypt_block($s, $b) } };
+    (@call dec, $s:ident, block, $b:expr) => { if via_inout() { BlockModeDecrypt::decrypt_block_inout($s, $b.into()) } else { BlockModeDecrypt::decrypt_block($s, $b) } };
+    (@call enc, $s:ident, block_b2b, $i:expr, $o:expr) => { if via_inout() { BlockModeEncrypt::encrypt_block_inout($s, ($i, $o).into()) } else { BlockModeEncrypt::encrypt_block_b2b($s, $i, $o) } };
+    (@call dec, $s:ident, block_b2b, $i:expr, $o:expr) => { if via_inout() { BlockModeDecrypt::decrypt_block_inout($s, ($i, $o).into()) } else { BlockModeDecrypt::decrypt_block_b2b($s, $i, $o) } };
+    (@call enc, $s:ident, blocks, $b:expr) => { if via_inout() { BlockModeEncrypt::encrypt_blocks_inout($s, $b.into()) } else { BlockModeEncrypt::encrypt_blocks($s, $b) } };
+    (@call dec, $s:ident, blocks, $b:expr) => { if via_inout() { BlockModeDecrypt::decrypt_blocks_inout($s, $b.into()) } else { BlockModeDecrypt::decrypt_blocks($s, $b) } };
+    (@callr enc, $s:ident, blocks_b2b, $i:expr, $o:expr) => {
+        if via_inout() { match cipher::inout::InOutBuf::new($i, $o) { Ok(b) => { BlockModeEncrypt::encrypt_blocks_inout($s, b); Ok(()) } Err(_) => Err(()) } }
+        else { BlockModeEncrypt::encrypt_blocks_b2b($s, $i, $o).map_err(|_| ()) }
+    };
+    (@callr dec, $s:ident, blocks_b2b, $i:expr, $o:expr) => {
+        if via_inout() { match cipher::inout::InOutBuf::new($i, $o) { Ok(b) => { BlockModeDecrypt::decrypt_blocks_inout($s, b); Ok(()) } Err(_) => Err(()) } }
+        else { BlockModeDecrypt::decrypt_blocks_b2b($s, $i, $o).map_err(|_| ()) }
+    };
     (@backend enc, $s:ident, $v:ident, $b:ident) => { BlockModeEncrypt::encrypt_with_backend($s, DirectEnc { variant: $v, buf: $b }) };
     (@backend dec, $s:ident, $v:ident, $b:ident) => { BlockModeDecrypt::decrypt_with_backend($s, DirectDec { variant: $v, buf: $b }) };
-    (@padded enc, $s:ident, $m:ident) => { Some(BlockModeEncrypt::encrypt_padded_vec::<Pkcs7>($s, $m)) };
-    (@padded dec, $s:ident, $m:ident) => { BlockModeDecrypt::decrypt_padded_vec::<Pkcs7>($s, $m).ok() };
-    (@oneshot enc, yes, $s:ident, $b:ident) => {{ AsyncStreamCipher::encrypt($s, $b); true }};
-    (@oneshot dec, yes, $s:ident, $b:ident) => {{ AsyncStreamCipher::decrypt($s, $b); true }};
+    // padded: `*_padded_vec` (route 0), `*_padded` on a slice in place (route 1; ops `padencs`, `paddecs`), `*_padded_b2b` into a
+    // dirty buffer (route 2; ops `padencb`, `paddecb`)
+    (@padded enc, $s:ident, $m:ident) => {{
+        let bs = <Self as ModeOps>::MBS;
+        match pad_route() {
+            1 => {
+                let mut buf = $m.to_vec();
+                buf.resize(bs * ($m.len() / bs + 1), 0xa5);
+                BlockModeEncrypt::encrypt_padded::<Pkcs7>($s, &mut buf, $m.len()).ok().map(|o| o.to_vec())
+            }
+            2 => {
+                let mut out = vec![0xa5u8; bs * ($m.len() / bs + 1)];
+                BlockModeEncrypt::encrypt_padded_b2b::<Pkcs7>($s, $m, &mut out).ok().map(|o| o.to_vec())
+            }
+            _ => Some(BlockModeEncrypt::encrypt_padded_vec::<Pkcs7>($s, $m)),
+        }
+    }};
+    (@padded dec, $s:ident, $m:ident) => {{
+        match pad_route() {
+            1 => {
+                let mut buf = $m.to_vec();
+                BlockModeDecrypt::decrypt_padded::<Pkcs7>($s, &mut buf).ok().map(|o| o.to_vec())
+            }
+            2 => {
+                let mut out = vec![0xa5u8; $m.len()];
+                BlockModeDecrypt::decrypt_padded_b2b::<Pkcs7>($s, $m, &mut out).ok().map(|o| o.to_vec())
+            }
+            _ => BlockModeDecrypt::decrypt_padded_vec::<Pkcs7>($s, $m).ok(),
+        }
+    }};
+    (@oneshot enc, yes, $s:ident, $b:ident) => {{ if via_inout() { AsyncStreamCipher::encrypt_inout($s, $b.into()) } else { AsyncStreamCipher::encrypt($s, $b) }; true }};
+    (@oneshot dec, yes, $s:ident, $b:ident) => {{ if via_inout() { AsyncStreamCipher::decrypt_inout($s, $b.into()) } else { AsyncStreamCipher::decrypt($s, $b) }; true }};
     (@oneshot $d:tt, no, $s:ident, $b:ident) => {{ let _ = ($s, $b); false }};
-    (@oneshotb enc, yes, $s:ident, $i:ident, $o:ident) => { Some(AsyncStreamCipher::encrypt_b2b($s, $i, $o).is_ok()) };
-    (@oneshotb dec, yes, $s:ident, $i:ident, $o:ident) => { Some(AsyncStreamCipher::decrypt_b2b($s, $i, $o).is_ok()) };
+    (@oneshotb enc, yes, $s:ident, $i:ident, $o:ident) => {
+        if via_inout() { Some(match cipher::inout::InOutBuf::new($i, $o) { Ok(b) => { AsyncStreamCipher::encrypt_inout($s, b); true } Err(_) => false }) }
+        else { Some(AsyncStreamCipher::encrypt_b2b($s, $i, $o).is_ok()) }
+    };
+    (@oneshotb dec, yes, $s:ident, $i:ident, $o:ident) => {
+        if via_inout() { Some(match cipher::inout::InOutBuf::new($i, $o) { Ok(b) => { AsyncStreamCipher::decrypt_inout($s, b); true } Err(_) => false }) }
+        else { Some(AsyncStreamCipher::decrypt_b2b($s, $i, $o).is_ok()) }
+    };
     (@oneshotb $d:tt, no, $s:ident, $i:ident, $o:ident) => {{ let _ = ($s, $i, $o); None }};
 }
 
@@ -466,6 +508,33 @@ impl<M: ModeOps> Obj for BlockObj<M> {
         }
     }
     fn step(&mut self, toks: &[&str]) -> Step {
+        // the same calls through the `*_inout` entry points / the other padded entry points
+        let renamed: Option<(Vec<&str>, bool, u8)> = match toks {
+            ["blockio", x] => Some((vec!["block", x], true, 0)),
+            ["blockiob", x, g] => Some((vec!["blockb", x, g], true, 0)),
+            ["blocksio", x] => Some((vec!["blocks", x], true, 0)),
+            ["blocksiob", x, g] => Some((vec!["blocksb", x, g], true, 0)),
+            ["oneshotio", x] => Some((vec!["oneshot", x], true, 0)),
+            ["oneshotiob", x, g] => Some((vec!["oneshotb", x, g], true, 0)),
+            ["padencs", x] => Some((vec!["padenc", x], false, 1)),
+            ["padencb", x] => Some((vec!["padenc", x], false, 2)),
+            ["paddecs", x] => Some((vec!["paddec", x], false, 1)),
+            ["paddecb", x] => Some((vec!["paddec", x], false, 2)),
+            _ => None,
+        };
+        if let Some((t2, io, pr)) = renamed {
+            struct Reset;
+            impl Drop for Reset {
+                fn drop(&mut self) {
+                    CTS_VIA_INOUT.store(false, std::sync::atomic::Ordering::Relaxed);
+                    PAD_ROUTE.store(0, std::sync::atomic::Ordering::Relaxed);
+                }
+            }
+            let _reset = Reset;
+            CTS_VIA_INOUT.store(io, std::sync::atomic::Ordering::Relaxed);
+            PAD_ROUTE.store(pr, std::sync::atomic::Ordering::Relaxed);
+            return self.step(&t2);
+        }
         match toks {
             ["block", x] => {
                 let Some(mut b) = unhex(x) else { return bad() };
@@ -979,6 +1048,10 @@ impl<T: CoreKind> Obj for CoreObj<T> {
 /// when set, the CTS adapters call the public `encrypt_inout` / `decrypt_inout` entry points directly instead of the
 /// `encrypt` / `decrypt` / `*_b2b` wrappers (ops `encio`, `decio`, `enciob`, `deciob`)
 pub static CTS_VIA_INOUT: std::sync::atomic::AtomicBool = std::sync::atomic::AtomicBool::new(false);
+pub static PAD_ROUTE: std::sync::atomic::AtomicU8 = std::sync::atomic::AtomicU8::new(0);
+fn pad_route() -> u8 {
+    PAD_ROUTE.load(std::sync::atomic::Ordering::Relaxed)
+}
 fn via_inout() -> bool {
     CTS_VIA_INOUT.load(std::sync::atomic::Ordering::Relaxed)
 }
@@ -992,6 +1065,8 @@ pub trait CtsKind: 'static {
     fn new_slices(key: &[u8], iv: &[u8]) -> bool;
     /// clone before use: exercises `Clone`
     fn enc_via_clone(key: &[u8], iv: &[u8], buf: &mut [u8]) -> bool;
+    /// an object constructed under (key2, iv2) is overwritten with `Clone::clone_from` from one under (key, iv), then used
+    fn via_clone_from(key: &[u8], iv: &[u8], key2: &[u8], iv2: &[u8], buf: &mut [u8], dec: bool) -> bool;
 }
 
 macro_rules! impl_cts_cbc {
@@ -1025,6 +1100,13 @@ macro_rules! impl_cts_cbc {
                 let m2 = m.clone();
                 drop(m);
                 cts::Encrypt::encrypt(m2, buf).is_ok()
+            }
+            fn via_clone_from(key: &[u8], iv: &[u8], key2: &[u8], iv2: &[u8], buf: &mut [u8], dec: bool) -> bool {
+                let src = <Self as KeyIvInit>::new(key.try_into().unwrap(), iv.try_into().unwrap());
+                let mut dst = <Self as KeyIvInit>::new(key2.try_into().unwrap(), iv2.try_into().unwrap());
+                dst.clone_from(&src);
+                drop(src);
+                if dec { cts::Decrypt::decrypt(dst, buf).is_ok() } else { cts::Encrypt::encrypt(dst, buf).is_ok() }
             }
         }
     };
@@ -1061,6 +1143,13 @@ macro_rules! impl_cts_ecb {
                 drop(m);
                 cts::Encrypt::encrypt(m2, buf).is_ok()
             }
+            fn via_clone_from(key: &[u8], _iv: &[u8], key2: &[u8], _iv2: &[u8], buf: &mut [u8], dec: bool) -> bool {
+                let src = <Self as KeyInit>::new(key.try_into().unwrap());
+                let mut dst = <Self as KeyInit>::new(key2.try_into().unwrap());
+                dst.clone_from(&src);
+                drop(src);
+                if dec { cts::Decrypt::decrypt(dst, buf).is_ok() } else { cts::Encrypt::encrypt(dst, buf).is_ok() }
+            }
         }
     };
 }
@@ -1074,7 +1163,9 @@ impl_cts_ecb!(EcbCs3);
 // `Debug` text of a type that may or may not implement `Debug` (the `cts` types do not, at the pinned commit): resolved by
 // method probing at a call site where the type is concrete — `Wrap<T>: ViaDebug` needs `T: Debug` and is found first
 // (by value on `&Wrap<T>`), otherwise the auto-ref'd fallback answers.
+#[allow(dead_code)]
 pub struct DbgWrap<'a, T>(pub &'a T);
+#[allow(dead_code)]
 pub trait ViaDebug {
     fn dbg_text(&self) -> String;
 }
@@ -1169,6 +1260,11 @@ impl<K: CtsKind> Obj for CtsObj<K> {
             ["newslice", kl, il] => {
                 let (Ok(k), Ok(i)) = (kl.parse::<usize>(), il.parse::<usize>()) else { return bad() };
                 line(if K::new_slices(&vec![0x5au8; k], &vec![0xa5u8; i]) { "ok".into() } else { "err".into() })
+            }
+            ["enccf", k2, v2, x] | ["deccf", k2, v2, x] => {
+                let (Some(k2), Some(v2), Some(mut b)) = (unhex(k2), unhex(v2), unhex(x)) else { return bad() };
+                let ok = K::via_clone_from(&self.key, &self.iv, &k2, &v2, &mut b, toks2[0] == "deccf");
+                res(ok, &b)
             }
             ["debug"] => match self.dbg {
                 Some(f) => line(format!("text {}", f(&self.key, &self.iv))),
